@@ -131,7 +131,10 @@ def rule_segmerge(ctx):
     f = ctx.program.func("chord.merge_chord_intervals", R)
     s = ctx.S.get(f.qual)
     enc = [c for c in s.calls() if c.callee == "chord.encode_many"]
-    need(len(enc) == 1, R, "merge_chord_intervals: encode_many call expected")
+    if len(enc) != 1:
+        yield ob(R, f, "chord.merge_chord_intervals:encoding", False, "neighbouring chords are no longer compared through chord.encode_many: differently spelled but identical chords (C#:maj / Db:maj) would not merge")
+        yield ob(R, f, "chord.merge_chord_intervals:fusion-condition", False, "fusion is not decided on the encoded (root, bitmap, bass) triple")
+        return
     red = enc[0].args[1] if len(enc[0].args) > 1 else dict(enc[0].kw).get("reduce_extended_chords")
     yield ob(R, f, "chord.merge_chord_intervals:encoding", enc[0].args[0].op == "param" and red is not None and tm.is_const(red, True), "labels are encoded with extended chords reduced (encode_many(labels, True))")
     app = [m for m in s.by_kind("mutate") if m.how == "method:append" and m.root]
